@@ -170,7 +170,7 @@ def run(ctx):
             pool.append(dict(name='q_two_roots', contigs=g[0]['contigs'] + g[6]['contigs']))
             pool.append(dict(name='q_ident_ref', contigs=list(g[4]['contigs'])))          # distance exactly 0.0
             sigs = [W.real_signature(w['kspec'], q['contigs']) for q in pool]
-            labels = ['lab,"el"\n1', 'ü2 ✓', 'plain3', ' 4 ', "it's", 'tab\tx', 'q;7', 'crlf\r\nx'] if names == 'fancy' else [q['name'] for q in pool]
+            labels = ['lab,"el"\n1', 'ü2 ✓', 'plain3', ' 4 ', "it's", 'tab\tx', 'q;7', 'crlf\r\nx', 'lone\rcr'] if names == 'fancy' else [q['name'] for q in pool]
             for strict in (False, True):
                 for nclose in (1, 3, 20):
                     inputs = []
